@@ -1,7 +1,6 @@
 import AsherahVerif.Model.SecMem
 import AsherahVerif.Spec.SecMemSpec
-import AsherahVerif.Generated.SecMem
-import AsherahVerif.Expected.SecMem
+import AsherahVerif.Spec.SecMemCode
 import AsherahVerif.Driver.Loop
 /-
 Line protocol of engine `secmem` (C11, C12).  Input lines are what go/cmd/hxsecmem wrote:
@@ -28,14 +27,8 @@ operation whose IMPLEMENTATION observation violates a clause of Spec/SecMemSpec.
 namespace AsherahVerif.Driver.SecMemEngine
 open AsherahVerif.SecMem AsherahVerif.SecMemSpec AsherahVerif.Driver
 
-/-- the F-6 flags of the code as it is in /repo now (regenerated skeletons). -/
-def theCfg : Cfg :=
-  let t := AsherahVerif.Expected.SecMem.cfgTokens AsherahVerif.Generated.SecMem.pmNew
-    AsherahVerif.Generated.SecMem.pmCreateRandomInner AsherahVerif.Generated.SecMem.mgNewFromBuffer
-  ⟨t.wipeArgOnNewFail, t.wipeOnNewProtectFail, t.wipeOnRandFail, t.wipeOnRandProtectFail, t.mgWipeOnProtectFail⟩
-
 structure St where
-  w : World := { cfg := theCfg }
+  w : World := { cfg := theCfg, pf := theProto }
   mon : Mon := {}
   shadow : Bool := true
   active : Bool := false
@@ -323,7 +316,7 @@ def step (s : St) (line : String) : St × Array String :=
   let ws := (words opS).filter (!·.startsWith "flt=")
   match ws with
   | ["world", kind] =>
-    ({ s with w := { cfg := theCfg }, mon := {}, shadow := kind != "real", active := true, cases := s.cases + 1 }, #[])
+    ({ s with w := { cfg := theCfg, pf := theProto }, mon := {}, shadow := kind != "real", active := true, cases := s.cases + 1 }, #[])
   | "conc" :: _ => concOp s opS obsS
   | ["rlimit", i, n] =>
     match parseImpl i, n.toNat? with
